@@ -125,7 +125,8 @@ PLAN = {
     "C13": {
         "mc": [{"name": "watchdog-design", "tla": "Watchdog.tla", "cfg": "Watchdog.cfg", "workers": 4},
                {"name": "watchdog-as-found(exits after a ping)", "tla": "Watchdog.tla", "cfg": "Watchdog_asfound.cfg", "workers": 4, "expect_violation": "NoSpuriousTimeout"},
-               {"name": "watchdog-reordered(shutdown before drop)", "tla": "Watchdog.tla", "cfg": "Watchdog_reordered.cfg", "workers": 4, "expect_violation": "CutNeverComplete"}],
+               {"name": "watchdog-reordered(shutdown before drop)", "tla": "Watchdog.tla", "cfg": "Watchdog_reordered.cfg", "workers": 4, "expect_violation": "CutNeverComplete"},
+               {"name": "watchdog-inductive-invariant(unbounded)", "apalache": True, "tla": "WatchdogInd.tla", "inv": "IndInv", "indinit": "IndInit"}],
         "families": [{"gen": ("tlc", {"name": "watchdog-schedules", "tla": "MC_WatchdogReplay.tla", "cfg": "MC_WatchdogReplay.cfg", "cfg_thorough": "MC_WatchdogReplay_thorough.cfg", "workers": 4}),
                       "runner": "wdsched", "trace": "Trace_Watchdog", "threads": 12, "budget_ms": 60000},
                      fam("rt", runner="rt", trace="Trace_Timeouts", threads=12, budget_ms=60000),
